@@ -4,6 +4,7 @@ import (
 	"fmt"
 	"math/big"
 	"testing"
+	"unicode"
 
 	"pgregory.net/rapid"
 
@@ -102,3 +103,5 @@ func call(f func()) (p interface{}) {
 }
 
 func errf(format string, a ...interface{}) error { return fmt.Errorf(format, a...) }
+
+var unicodeRange = unicode.RangeTable{R16: []unicode.Range16{{Lo: 0x20, Hi: 0x7e, Stride: 1}}, LatinOffset: 1}
